@@ -582,6 +582,11 @@ def run_client_case(run, model, case):
             b = monitor_client(rq, obs, extra, T)
             if b and not bad:
                 bad = 'request %d (%s): %s' % (i, rq.get('tag'), b)
+                prev = case['requests'][i - 1] if i else {}
+                if (rq.get('same_blob') and prev.get('tag') in LENGTH_SETTING_LIARS and prev.get('known') is None
+                        and not extra['verified_flag'] and extra['on_disk'] is None
+                        and obs['len'] is not None and obs['len'] != len(rq['truth']) // 2):
+                    sig = POISON_SIG
             run.count('client:' + (obs['phase'] if isinstance(obs['phase'], str) else obs['phase'][0]))
             run.count('mis:' + str(rq.get('tag')))
             if obs['phase'] == 'pending':
@@ -1680,7 +1685,7 @@ def run_race_case(run, model, case):
         trs[port] = t
         return t
     loop.fake_connect = connect
-    bad = None
+    bad, poisoned = None, False
     try:
         blob = SpyBlobFile(loop, h, case['known'], None, d)
         th = None
@@ -1744,6 +1749,9 @@ def run_race_case(run, model, case):
         elif not verified:
             bad = ('an honest peer delivered the whole blob but it is not verified: honest request %r, other peer (%s) %r'
                    ', honest retry %r, blob.length %r' % (oh, case['liar'], ol, retried, blob.length))
+            # the known finding: the length was unknown, the other peer announced a wrong admissible length, it stuck
+            poisoned = (case['known'] is None and case['liar'] in LENGTH_SETTING_LIARS
+                        and blob.length is not None and blob.length != len(blob_bytes) and on_disk is None)
         loop.advance(2 * T + 1)
         if not bad and (th is None or not th.done() or not tl.done()):
             bad = 'a request is still pending after both timeouts'
@@ -1756,19 +1764,20 @@ def run_race_case(run, model, case):
         shutil.rmtree(d, ignore_errors=True)
     run.case(case, nontrivial=True, validated=False)
     if bad:
-        run.violation(case, bad, signature=case.get('finding') or {
+        run.violation(case, bad, signature=POISON_SIG if poisoned else {
             'kind': 'race', 'liar': case['liar'], 'known': case['known'], 'order': case['order'], 'blob': case['blob'][:64]})
 
 
+POISON_SIG = {'kind': 'race-length-poison'}     # known_findings.jsonl: class-level signature
 LENGTH_SETTING_LIARS = {'len_plus', 'len_minus', 'len_zero', 'len_max', 'len_max_minus1', 'len_bool'}
 RACE_SKIP = {'oversized_open', 'oversized_ws', 'json_deep', 'brace_flood', 'cap_hdr_in', 'cap_hdr_out', 'cap_junk_in',
              'cap_junk_out'}
 
 
 def length_poison_case(late_start=False):
-    """the defect repaired by `fix: a blob length announced by a peer that did not deliver the blob is forgotten`: a
-    peer announces a wrong (admissible) length for a blob whose length the client does not know, and fails; the
-    honest peer racing with it may be refused, but the honest RETRY must succeed (blob.length forgotten).
+    """KNOWN FINDING race-length-poison (known_findings.jsonl): a peer announces a wrong (admissible) length for a blob
+    whose length the client does not know, and fails; blob.length keeps the wrong value, the honest peer racing with
+    it and the honest RETRY are refused. The property asks for the retry (at least) to succeed.
     late_start: the honest request only starts after the liar's header has already set blob.length."""
     blob = bytes((i * 7 + 3) % 251 for i in range(100))
     h = sha(blob)
@@ -2129,7 +2138,7 @@ def main(run):
                 continue
             for when in ('before', 'during', 'after', 'timeout', 'random', 'late_start'):
                 dispatch(run, model, gen_race_case(rng, liar, when))
-            if liar not in ('len_bool',):
+            if liar not in ('len_bool', 'known_wrong'):   # known_wrong: the CALLER's length is wrong, not a peer's doing
                 dispatch(run, model, gen_retry_case(rng, liar))
     # --- server timers: slow readers, silent peers, stalled transfers
     for case in fixed_tserver_cases():
